@@ -296,6 +296,9 @@ def _check(args):
     form = gen_survey(rng)
     if rng.random() < 0.4:
         forms.add_custom_columns(rng, form)
+    if i % 3 == 0:
+        # rarely used but accepted features (a separate stream: the base forms of the other cases stay as they were)
+        forms.add_exotics(rng_for(seed, PID, "exotic", i), form, ["osm", "search", "legacy_hint", "choice_parent", "empty_group", "calc_msgs", "audit"], p=0.4)
     desc = {"form": form, "case": i}
     try:
         direct = convert(copy.deepcopy(forms.as_dict(form)), form_name="data")
@@ -324,6 +327,11 @@ def _check(args):
         d3 = create_survey_element_from_json(json.dumps(d2)).to_json_dict()
         if d3 != d2:
             probs.append("second reload changes the dump: " + diff_dicts(d2, d3))
+        # (C) the survey that produced the XForm (its dump is taken AFTER XML generation)
+        s3 = create_survey_element_from_json(json.dumps(direct._survey.to_json_dict()))
+        x3 = s3.to_xml(validate=False, pretty_print=False)
+        if x3 != x0:
+            probs.append("dump taken after to_xml() -> survey gives a different XForm: " + str(xf.first_difference(xf.semantic_canon(x0), xf.semantic_canon(x3)) or "order of attributes/declarations"))
     except Exception as e:   # noqa: BLE001
         probs.append(f"round trip raised {e!r}")
     if probs:
@@ -373,7 +381,8 @@ def oracle(seed, tier, searching=False):
         "rule": "generated workbooks with group logic (relevant/read_only on groups and repeats), extra choice columns, parameters, translations, media, "
                 "settings, custom bind/instance/body columns, namespaces and attribute:: settings: (A) workbook -> JSON dict -> JSON text -> survey -> "
                 "XForm equals convert()'s XForm byte for byte; (B) survey -> to_json_dict -> JSON text (ASCII-escaped or not) -> survey: same XForm, "
-                "same dump, and a second reload leaves the dump unchanged",
+                "same dump, and a second reload leaves the dump unchanged; (C) the dump of the survey that already generated its XForm reloads to the same XForm; "
+                "every third case adds rarely used features (osm tags, search() selects, legacy types with a type-table hint, a choices column called parent, empty groups, calculate messages, audit)",
         "accepted": len(oks), "skipped": skips,
         "failures": [{"input": f["input"], "what": f["what"], "reproduce": "cd /verif && /venv/bin/python harness/check.py C16 --replay <this file>"} for f in fails[:8]],
         "samples": [{"oracle_case": r["i"], "rows": r["n"]} for r in oks[:3]],
